@@ -10,7 +10,8 @@ THEOREMS = ['Otel.C10.' + t for t in (
     'setValue_refines_map', 'setValues_refines_map',
     'older_unaffected_step', 'older_unaffected', 'older_unaffected_answers', 'new_context_fresh',
     'attach_makes_current', 'detach_attach_restores', 'detach_out_of_order_unwinds', 'detach_most_recent_first', 'detach_foreign_noop',
-    'detach_foreign_result', 'detach_eq_spec', 'balanced_restores', 'attach_above_detach_restores',
+    'detach_foreign_result', 'detach_eq_spec', 'balanced_restores', 'attach_above_detach_restores', 'step_attach_stack', 'step_detach_stack', 'step_drop_stack',
+    'program_attach_detach_restores',
     'scope_open_activates_span', 'scope_release_restores_span', 'scope_release_after_program', 'scope_nested_release_reactivates',
     'thread_isolation_step', 'thread_isolation', 'ctxSpanKey_eq')]
 HARNESSES = [Harness('f_c10', ['harness/f_c10.cc'])]
